@@ -325,3 +325,33 @@ PROPS["C18"] = dict(
                guard={"quick": 900, "thorough": 7200})],
     min_class_fraction={"markup_significant_string_or_key": 0.3, "list_crosses_cutoff": 0.1, "xml_checked": 0.4},
 )
+
+
+PROPS["C07"] = dict(
+    pkg="c07",
+    replay="^TestReplay",
+    replay_isolated=True,
+    rule=("library expressions drawn from a table generator covering every list method (map accept reduce sum mapReduce mean min max minMax "
+          "replaceList combine combine3 combineN multiUse indexWhere groupByString groupByInt groupByEqual uniqueString uniqueInt compact "
+          "cross merge order orderRev orderLess reverse append iir iirCombine iirApply visit fsm top skip number present set size first "
+          "single last eval string movingWindow movingWindowRemove createInterpolation linearReg, ~, +, index), every map method, every "
+          "string method, the closure methods and the numeric static functions: receivers are empty, singleton, with duplicates, "
+          "sorted/reversed, mixed int/float, numbers(n), string lists (unicode), record lists, a generated list argument; callbacks are "
+          "total, partial (throw at one element) or type-changing; numeric arguments include 0, negatives and values beyond the list size; "
+          "up to 4 stages are composed before a terminal. In 20% of the cases misuse is injected: wrong argument type, callback of wrong "
+          "arity or result type, a missing or surplus argument. Oracle: the eager reference library (harness/ref) - exact value, lists of "
+          "unspecified order (groupBy*, unique*) as multisets, linearReg/createInterpolation with 1e-9 relative tolerance, misuse => error "
+          "on both sides; undocumented edges (top/skip with n<0, behind in mid-line, all-of on a shorter list, ...) are skipped. A second "
+          "property checks order/orderRev/orderLess with tied keys as 'sorted permutation' in both directions (stability not asserted). "
+          "Every executed case is non-trivial (it reaches a built-in with a definite reference verdict); distinct = program text + argument."),
+    assumptions=["the reference library is written from the method descriptions and the expectations of the repository's tests; where they are silent the edge is excluded, not guessed"],
+    jobs=[
+        dict(name="c07", run="^TestPropC07$", kind="rapid", shards=16, checks={"quick": 300000, "thorough": 8000000},
+             guard={"quick": 900, "thorough": 7200}),
+        dict(name="order_ties", run="^TestPropOrder$", kind="rapid", shards=8, checks={"quick": 20000, "thorough": 500000},
+             guard={"quick": 900, "thorough": 7200}),
+    ],
+    min_class_fraction={"misuse": 0.05, "error_outcome": 0.1, "m_merge": 0.0007, "m_multiUse": 0.0007, "m_fsm": 0.0007, "m_iirApply": 0.0007,
+                        "m_str.cut": 0.0007, "m_map.replace": 0.0007, "m_linearReg": 0.0007, "m_createInterpolation": 0.0007, "m_combineN": 0.0007,
+                        "m_movingWindow": 0.0007, "m_groupByEqual": 0.0007, "m_cross": 0.0007, "m_compact": 0.0007},
+)
